@@ -7,11 +7,21 @@ use std::io::Write;
 fn main() {
     let args: Vec<String> = std::env::args().collect();
     let prog = std::path::Path::new(&args[0]).file_name().unwrap().to_string_lossy().to_string();
-    let a: Vec<&str> = args[1..].iter().map(String::as_str).collect();
+    let mut a: Vec<&str> = args[1..].iter().map(String::as_str).collect();
+    // docker's management-command spellings are the same commands: `docker container rm` = `docker rm`,
+    // `docker image rm|remove` = `docker rmi`, `docker container run|logs|port|exec`
+    if prog == "docker" && a.len() >= 2 {
+        match (a[0], a[1]) {
+            ("container", "run" | "rm" | "logs" | "port" | "exec") => { a.remove(0); }
+            ("image", "rm" | "remove") => { a.remove(0); a[0] = "rmi"; }
+            _ => {}
+        }
+    }
+    let norm: Vec<String> = a.iter().map(|x| x.to_string()).collect();
     let kind = match (prog.as_str(), a.first().copied()) {
         ("pack", Some("build")) => "pack-build",
         ("pack", Some("sbom")) => "sbom",
-        ("docker", Some("run")) => if a.contains(&"--detach") { "run-detached" } else { "run-oneshot" },
+        ("docker", Some("run")) => if a.contains(&"--detach") || a.contains(&"-d") { "run-detached" } else { "run-oneshot" },
         ("docker", Some("logs")) => "logs",
         ("docker", Some("port")) => "port",
         ("docker", Some("exec")) => "exec",
@@ -65,7 +75,7 @@ fn main() {
         }
     }
     let mut log = std::fs::OpenOptions::new().create(true).append(true).open(state.join("log.ndjson")).unwrap();
-    writeln!(log, "{}", json!({"prog": prog, "argv": args[1..], "kind": kind, "outcome": outcome, "path_listing": listing, "buildpack_dirs": bp_dirs})).unwrap();
+    writeln!(log, "{}", json!({"prog": prog, "argv": norm, "kind": kind, "outcome": outcome, "path_listing": listing, "buildpack_dirs": bp_dirs})).unwrap();
     // like the real tools: `docker rmi --force` of an image that was never built fails ("No such
     // image"), while `docker rm --force` / `docker volume remove --force` of something missing succeed
     let built = state.join("image-built");
